@@ -159,3 +159,5 @@ theorem C04_tokens_are_spec_tokens_ascii (inp : Bytes) (hA : Ascii inp)
     rw [e1] at htr
     have := tokens_eq_of_obs inp ts toks e4 (fun t ht => htr t (by simp [LexOut.tokens, ht]))
     exact ⟨e, by rw [e1, this]⟩
+
+#print axioms C04_tokens_are_spec_tokens_ascii
